@@ -1,7 +1,7 @@
 (* Props/C04.v - Packet framing is lossless for every payload size and every stream segmentation.
    Only property theorems here, each closed by [exact]; see Proofs/WireProofs.v for the proofs. *)
 From Coq Require Import List NArith Lia Bool.
-From MM Require Import Lib.Bytes Model.Wire Proofs.WireProofs Gen.Facts.
+From MM Require Import Lib.Bytes Model.Wire Proofs.WireProofs Gen.FactsStream.
 Import ListNotations.
 Open Scope N_scope.
 
